@@ -490,6 +490,50 @@ def _unroll_literal_loops(fn) -> int:
     return done
 
 
+def _lower_genexp_loops(fn) -> int:
+    """`for x in (E for y in IT if C): body` -> `for y in IT: if C: x = E; body` (a generator expression is consumed lazily, one
+    element per iteration, so the two run the same statements in the same order).  Only for one generator, no `else` of the
+    loop, and when the generator's variables are free to become locals of the function (they are the loop's own target, or a
+    name used nowhere else)."""
+    done = 0
+    for blk in _blocks(fn):
+        for st in blk:
+            if not (isinstance(st, ast.For) and not st.orelse and isinstance(st.iter, ast.GeneratorExp) and len(st.iter.generators) == 1):
+                continue
+            g = st.iter.generators[0]
+            if g.is_async:
+                continue
+            gnames = {x.id for x in ast.walk(g.target) if isinstance(x, ast.Name)}
+            tnames = {x.id for x in ast.walk(st.target) if isinstance(x, ast.Name)}
+            inside = {id(x) for x in ast.walk(st.iter)}
+            elsewhere = {x.id for x in ast.walk(fn) if isinstance(x, ast.Name) and id(x) not in inside} | {a.arg for a in fn.args.args + fn.args.kwonlyargs}
+            if (gnames - tnames) & elsewhere:
+                continue
+            # `continue` in the body must still skip to the next element: it does (same loop); a `break` likewise
+            same = isinstance(st.iter.elt, ast.Name) and isinstance(st.target, ast.Name) and isinstance(g.target, ast.Name) and st.iter.elt.id == g.target.id and st.target.id == g.target.id
+            body = list(st.body)
+            if not same:
+                if isinstance(g.target, ast.Name) and isinstance(st.iter.elt, ast.Name) and st.iter.elt.id == g.target.id and isinstance(st.target, ast.Name):
+                    # for x in (y for y in IT if C): rename by binding x = y
+                    body = [ast.Assign(targets=[st.target], value=ast.Name(id=g.target.id, ctx=ast.Load()))] + body
+                else:
+                    body = [ast.Assign(targets=[st.target], value=st.iter.elt)] + body
+            if g.ifs:
+                test = g.ifs[0] if len(g.ifs) == 1 else ast.BoolOp(op=ast.And(), values=list(g.ifs))
+                body = [ast.If(test=test, body=body, orelse=[])]
+            new_target = g.target
+            for x in ast.walk(new_target):
+                if isinstance(x, ast.Name):
+                    x.ctx = ast.Store()
+            st.target = new_target
+            st.iter = g.iter
+            st.body = body
+            for n in body:
+                ast.copy_location(n, st)
+            done += 1
+    return done
+
+
 def _module_tables(tree):
     """module-level `NAME = {<const>: <expr>, ...}` displays that are assigned once and never written to afterwards"""
     out = {}
@@ -561,6 +605,7 @@ def canonicalise(tree: ast.Module) -> ast.Module:
             if not _lower_match(fn):  # (nested match statements: inner ones appear after the outer one was lowered)
                 break
         _split_parallel(fn)
+        _lower_genexp_loops(fn)
         _lbyl(fn)
         # folding one flag can make the next one adjacent to its `if`
         for _ in range(4):
